@@ -133,6 +133,15 @@ CLAIMS["C06"] = dict(
     technique="writer/reader fact agreement, symbolic evaluation over a finite domain, data-dependence closure",
     design="DESIGN.md section 4, C06")
 
+CLAIMS["C03"] = dict(
+    text="Index-role discipline (vin/amounts by the input index, vout by the output index, the latter taken from the same input's "
+         "prevout.n), selection rules (txid equality dominates, --select honoured, refusals), fail-closed hash commitments before the "
+         "script to execute is chosen (P2SH-wrapped, v0 script/key hash with the right hash function, v1 commitment construction), "
+         "script-switch epilogue, P2SH continuation only for BASE with the flag, and agreement with VerifyWitnessProgram on annex rule, "
+         "validation weight and sizes. That a finished session equals consensus validity is not decided.",
+    technique="subscript role typing, def-use and dominance on the CFG, sibling fact agreement with the batch twin",
+    design="DESIGN.md section 4, C03")
+
 NOT_YET = "check not built yet in this round (see DESIGN.md section 7 build order)"
 
 NA = {
